@@ -24,7 +24,7 @@ CFG = dict(
               "every broadcast is validated by a fresh real validator in emission order",
     lean=["Ssv.Props.C10", "Ssv.Props.C10Emission"],
     engines=[dict(harness="validation", driver="m_validation", args=["-mode", "c10"], case_delim="reset",
-                  n_quick=1000, n_thorough=15000, thorough_seeds=2, n_search=2500, search_seeds=3)],
+                  n_quick=700, n_thorough=15000, thorough_seeds=2, n_search=2500, search_seeds=3)],
     rule="real runs: n real QBFT controllers (n=4, every 4th run n=7) with real BLS share keys and signature verification, all five consensus roles + registration/exit "
          "partial signatures, scenarios happy / different start values / lost round-1(-2) leaders / prepared round changes / shuffled delivery / one operator down / "
          "no proposal ever (rounds up to the role maximum + 1), rounds advanced by the real Controller.OnTimeout at the real RoundTimeout deadlines; every broadcast "
